@@ -7,6 +7,10 @@ use crate::{guarded, hex, Ctx, Rng};
 use coap_lite::error::HandlingError;
 use coap_lite::{CoapRequest, CoapResponse, MessageClass, Packet, ResponseType};
 
+thread_local! {
+    static PREPARED: std::cell::Cell<bool> = std::cell::Cell::new(false);
+}
+
 fn flat(p: &Packet) -> Vec<(u16, Vec<u8>)> {
     let mut o = vec![];
     for (n, l) in p.options() {
@@ -148,6 +152,7 @@ pub fn case_err_tweaked(cx: &mut Ctx, spec: &PktSpec, code: Option<u8>, msg: &[u
                 _ => {}
             }
         }
+        PREPARED.with(|p| p.set(req.response.is_some()));
         let before = req.response.clone();
         let e = match code {
             None => HandlingError::not_handled(),
@@ -169,6 +174,13 @@ pub fn case_err_tweaked(cx: &mut Ctx, spec: &PktSpec, code: Option<u8>, msg: &[u
         Some((ok, before, after)) => {
             cx.case(&line, &format!("{} {}", ok, after.as_ref().map(|a| dump(&a.message)).unwrap_or("none".into())));
             cx.nontrivial(&line);
+            // from_packet prepares a reply for every Confirmable / Non-confirmable message, whatever its code,
+            // token, options or payload (and none for ACK / RST)
+            let typ = (spec.vtt >> 4) & 3;
+            let prepared = PREPARED.with(|p| p.get());
+            if spec.tok.len() <= 15 && !tweaks.iter().any(|t| matches!(t, Tweak::NoResp)) && (typ < 2) != prepared {
+                cx.oracle_fail("C07", &line, &format!("from_packet on a message of type {} (code {:?}, {} token bytes, {} payload bytes): reply prepared = {}", typ, spec.code, spec.tok.len(), spec.payload.len(), prepared));
+            }
             let expect_ok = before.is_some() && code.is_some();
             if *ok != expect_ok {
                 cx.oracle_fail("C07", &line, &format!("apply_from_error returned {} (response present: {}, code present: {})", ok, before.is_some(), code.is_some()));
@@ -327,6 +339,15 @@ pub fn run(cx: &mut Ctx) {
                 let spec = PktSpec { vtt: 0x40 | typ << 4 | tkl as u8, code: CodeSpec::Byte(1), mid: 0x4444, tok: vec![0xab; tkl], opts: vec![(11, b"r".to_vec())], payload: vec![] };
                 case_err_tweaked(cx, &spec, code, b"late", &[], &[Tweak::NoResp]);
                 case_err_tweaked(cx, &spec, code, b"late", &[(12, vec![50])], &[Tweak::ReqMid(7), Tweak::NoResp]);
+            }
+        }
+    }
+    // from_packet on every kind of message: any code (0.00 Empty included) x type x token / option / payload
+    for typ in 0..4u8 {
+        for codeb in [0u8, 1, 2, 0x45, 0x84, 0x1f, 0xff] {
+            for (tok, opts, pay) in [(vec![], vec![], vec![]), (vec![7u8], vec![], vec![]), (vec![], vec![(11u16, b"p".to_vec())], vec![]), (vec![], vec![], vec![1u8, 2]), (vec![1, 2, 3, 4, 5, 6, 7, 8], vec![(6u16, vec![]), (11, b"p".to_vec())], b"x".to_vec())] {
+                let spec = PktSpec { vtt: 0x40 | typ << 4 | tok.len() as u8, code: CodeSpec::Byte(codeb), mid: 0x6666, tok: tok.clone(), opts: opts.clone(), payload: pay.clone() };
+                case_err(cx, &spec, Some(0x84), b"e", &[]);
             }
         }
     }
